@@ -618,7 +618,10 @@ pub fn o_cap(a: &Analysis) -> Vec<Violation> {
                 }
                 // the *_realtime variants may answer "not done" because the internal lock was busy:
                 // that is not a capacity refusal
-                if s.status == SendStatus::Failed && s.err.is_none() && !s.kind.ends_with("realtime") {
+                // that is not a capacity refusal - but it needs another task's operation to overlap the call
+                let lock_maybe_busy = s.kind.ends_with("realtime")
+                    && a.d.recs.iter().any(|x| x.task != s.task && x.inv < s.ret && (x.ret > s.inv || x.ret == 0));
+                if s.status == SendStatus::Failed && s.err.is_none() && !lock_maybe_busy {
                     out.push(v(format!("cap/unbounded-refused@{}", s.kind), format!("{} was refused on an unbounded channel", s.kind)));
                 }
                 if s.err == Some(E::Timeout) {
